@@ -324,6 +324,10 @@ func duel(seed uint64, r *simrt.Rand, p *Profile, prop string) *Scenario {
 		if r.Bool(0.5) {
 			add(Step{Conn: c, Op: "subscribe", Typ: Ref{K: "reg", I: r.Intn(2)}})
 		}
+		if r.Bool(0.6) {
+			// something to update, list and delete on its entity
+			add(Step{Conn: r.Intn(n), Op: "comp_add", Typ: Ref{K: "reg", I: r.Intn(2)}, Ent: Ref{K: "of", I: c * 8}, Data: "init"})
+		}
 	}
 	for round := 0; round < 2+r.Intn(4); round++ {
 		lj := g.liveJoined()
